@@ -1,7 +1,9 @@
 import PartituraModel.Wire
 import PartituraModel.Model.MatchTime
+import PartituraModel.Model.MatchFloat
+import PartituraModel.Model.MatchAttr
 
-open Wire Model Model.MatchTime
+open Wire Model Model.MatchTime Model.MatchFloat
 
 def orErr (o : Option String) : String := o.getD "err"
 
@@ -175,6 +177,23 @@ def handle (ts : List String) : String :=
     orErr <| (run pRtInput rest).bind fun (sc, st, ks) => (sc.roundTrip st ks).map fmtRecon
   | "rtn" :: rest =>
     orErr <| (run pRtInput rest).bind fun (sc, st, ks) => (sc.roundTrip st ks).map (fmtReconNotes st.length)
+  | "attrs" :: rest =>
+    -- score attributes of all snotes of a file (attribute list, duration 0?, MIDI pitch) -> staff (after add_staffs),
+    -- voice (after the final assignment), staccato, accent, grace
+    orErr <| (run (do let split ← nat
+                      let l ← list (do let a ← list str; let z ← bool; let p ← nat; pure (a, z, p))
+                      pure (split, l)) rest).bind
+      fun (split, l) => (MatchAttr.readAll (l.map fun (a, z, _) => (a.map String.toList, z))).map fun rs =>
+        fmtList (fun (r, (_, _, p)) =>
+          fmtTuple [fmtNat (MatchAttr.addStaff split p r.staff), fmtOpt fmtNat r.voice, fmtBool r.staccato, fmtBool r.accent,
+                    fmtBool r.grace]) (rs.zip l)
+  | "pid" :: rest =>
+    orErr <| (run (list str) rest).map fun l => fmtList (fun s => fmtList (fun c => fmtNat c.toNat) (MatchAttr.pnoteId s.toList)) l
+  | "durf" :: rest =>
+    -- the loaded (tied) duration of each note in binary64: divisions, then per note the duration and its components
+    orErr <| (run (do let d ← nat; let l ← list (do let f ← pFrac; let cs ← list pFrac; pure (f, cs)); pure (d, l)) rest).map
+      fun (d, l) => fmtList (fun (f, cs) =>
+        fmtInt ((if cs.isEmpty then [durDivsF d f] else cs.map (durDivsF d)).foldl (· + ·) 0)) l
   | "decr" :: rest =>
     orErr <| (run pDecInput rest).bind fun (ns, tsl, ks) =>
       (reconstruct ns tsl ks).map fun r => fmtOpt fmtRat r.restEnd
